@@ -33,7 +33,7 @@ def run(tier, replay=None):
             raise core.MachineryFailure('CompletionGen failed: %s' % gen.error)
         ck.add_tlc(gen)
         ctxs = sorted([r for r in gen.records if isinstance(r, dict) and 'pre' in r], key=lambda v: json.dumps(v, sort_keys=True))
-        if len(ctxs) != 15120:
+        if len(ctxs) != 16200:
             raise core.MachineryFailure('CompletionGen produced %d contexts' % len(ctxs))
         files = sorted(glob.glob(os.path.join(core.REPO, 'supp', '*.py')) + glob.glob(os.path.join(core.REPO, 'tests', '*.py')))
         stdlib = sysconfig.get_paths()['stdlib']
